@@ -1783,6 +1783,40 @@ class Normaliser:
             ast.fix_missing_locations(node)
             return
 
+    def inline_hoisted_tests(self, node):
+        """f = (p == 'k')   (a comparison of parameters / attributes of self / constants, bound once at the top level of the function, none of
+        whose names is re-bound afterwards) ... if f: ..        ->   if p == 'k': ..
+        A test hoisted out of a loop reads the same values wherever it is evaluated."""
+        body = node.body
+        for i, st in enumerate(list(body)):
+            if not (isinstance(st, ast.Assign) and len(st.targets) == 1 and isinstance(st.targets[0], ast.Name) and isinstance(st.value, (ast.Compare, ast.BoolOp))):
+                continue
+            f = st.targets[0].id
+            if sum(1 for n in ast.walk(node) if isinstance(n, ast.Name) and n.id == f and isinstance(n.ctx, ast.Store)) != 1:
+                continue
+            if any(not isinstance(n, (ast.Name, ast.Attribute, ast.Constant, ast.Compare, ast.BoolOp, ast.cmpop, ast.boolop, ast.expr_context, ast.UnaryOp, ast.unaryop))
+                   for n in ast.walk(st.value)):
+                continue
+            names = {n.id for n in ast.walk(st.value) if isinstance(n, ast.Name)}
+            attrs = {U(n) for n in ast.walk(st.value) if isinstance(n, ast.Attribute)}
+            later = body[body.index(st) + 1:]
+            rebound = any(isinstance(n, ast.Name) and n.id in names and isinstance(n.ctx, ast.Store) for r in later for n in ast.walk(r)) or \
+                any(isinstance(n, ast.Attribute) and U(n) in attrs and isinstance(n.ctx, ast.Store) for r in later for n in ast.walk(r))
+            if rebound or any(isinstance(n, ast.Call) for r in later for n in ast.walk(r) if False):
+                continue
+            loads = [n for r in later for n in ast.walk(r) if isinstance(n, ast.Name) and n.id == f]
+            tests = [t for r in later for t in ast.walk(r) if isinstance(t, (ast.If, ast.IfExp, ast.While)) and isinstance(t.test, ast.Name) and t.test.id == f]
+            nots = [t for r in later for t in ast.walk(r) if isinstance(t, (ast.If, ast.IfExp, ast.While)) and isinstance(t.test, ast.UnaryOp)
+                    and isinstance(t.test.op, ast.Not) and isinstance(t.test.operand, ast.Name) and t.test.operand.id == f]
+            if not loads or len(loads) != len(tests) + len(nots):
+                continue
+            for t in tests:
+                t.test = clone(st.value)
+            for t in nots:
+                t.test.operand = clone(st.value)
+            body.remove(st)
+        ast.fix_missing_locations(node)
+
     def argmin_scans(self, node):
         """best = None
            for c in X:  if COND(c) and (best is None or K[c] < K[best]): best = c
@@ -1991,6 +2025,7 @@ class Normaliser:
         self.one_shot_iterators(node)
         self.fuse_pipelines(node)
         self.argmin_scans(node)
+        self.inline_hoisted_tests(node)
         self.inline_deferred_scatter(node)
         self.split_tuple_accumulators(node)
         self.dememoise(node)
